@@ -219,6 +219,13 @@ def log_roundtrip(ctx: Ctx, built: bool, n: int) -> None:
             f = rand_frame(rng, valid_bias=0.97)
             rssi = rng.choice(["---", "...", "045", "000", "099"])
             d = t0 + td(microseconds=rng.randint(0, 10**10))
+            r = rng.random()
+            if r < 0.15:
+                d = d.replace(microsecond=0)              # exactly on a second
+            elif r < 0.3:
+                d = d.replace(microsecond=(d.microsecond // 1000) * 1000)   # millisecond-stamped source
+            elif r < 0.35:
+                d = d.replace(microsecond=rng.choice([1, 10, 999999, 100000, 500000]))
             ann = rng.choice(["", "", " # a comment", " * an err msg", " < hint", " # evofw3 note * with star", " # c1 # c2"])
             line = f"{rssi} {f}{ann}"
             try:
